@@ -371,6 +371,11 @@ func genForkableCase(r *Rng, o *Out) (fkCfg, []fkOp, *Tree) {
 		c.root, c.hold = "none", true
 		feedRoot = r.Bool()
 		o.Stat("forkable.cfg.discovery_hold", 1)
+		if r.Intn(3) == 0 {
+			// forkable.New(h) with no option at all: no LIB, blocks are passed on before the LIB is discovered
+			c.hold = false
+			o.Stat("forkable.cfg.discovery_without_hold", 1)
+		}
 	}
 	if fsbIsRoot {
 		c.fsb = t.Root.Num // the root is the first streamable block of the chain
